@@ -284,7 +284,7 @@ func c08IsPow2(x int64) bool { return x > 0 && x&(x-1) == 0 }
 // ---------------------------------------------------------------------------------------------
 
 func TestVerifC08Filter(t *testing.T) {
-	kit.Run(t, kit.Config{Property: "C08", Unit: "filter", Quick: 10000, Thorough: 300000,
+	kit.Run(t, kit.Config{Property: "C08", Unit: "filter", Quick: 8000, Thorough: 150000,
 		Rule: "one node (allocatable incl. powers of two, zero/missing entries, amplified with raw-allocatable annotation, optional custom-threshold annotation), generated args (whole/prod/aggregated thresholds 0-100, scaling factors, estimation deadlines, expiry switches), 0-5 assigned pods (bound or reserved, timestamps and deadlines on/around the report boundaries) plus an optional old prod pod, one incoming pod; scenarios: daemon-set pod, no report, expired/empty report x the two switches, and threshold decisions where the free usage figure of the profile in force is set so that (existing+incoming)/allocatable lands at t-1, t, t+0.49, t+0.5, t+1 percent or anywhere; every Filter call is one evaluation; distinct = (scenario, profile class, target, outcome, #thresholded resources, expiry switches, PreFilter used); non-trivial = a case with at least one pass and one rejection among its threshold decisions",
 	}, func(c *kit.Case) {
 		r := c.R
